@@ -2193,7 +2193,8 @@ func computedCtorNames(g *ssa.Function) (wrapperOwn, innerTarget bool) {
 			}
 		}
 		if st, ok := ins.(*ssa.Store); ok {
-			if fr, isF := fieldOf(st.Addr); isF && fr.Field == "name" && strings.HasPrefix(fr.Struct, "column.column") {
+			// the implementation's own `name` field, or that of a base struct it embeds (not the wrapper's)
+			if fr, isF := fieldOf(st.Addr); isF && fr.Field == "name" && fr.Struct != "column.column" {
 				innerTarget = sameExpr(st.Val, g.Params[1])
 			}
 		}
